@@ -235,10 +235,10 @@ pub fn hex_text(offsets: &'static [usize], valid_bases: Option<BoxedStrategy<Str
     });
     let hexish = mutate_text(cased.boxed());
     let non_utf8 = raw_bytes(offsets).prop_map(|b| String::from_utf8_lossy(&b).into_owned());
-    let printable = prop_oneof!["[ -~]{0,12}", "[0-9a-fA-F]{0,8}", "\\PC{0,8}"];
+    let printable = prop_oneof![re("[ -~]{0,12}"), re("[0-9a-fA-F]{0,8}"), re("\\PC{0,8}")];
     let valid = match valid_bases {
         Some(v) => mutate_text(v),
-        None => mutate_text("[0-9a-f]{0,6}".boxed()),
+        None => mutate_text(re("[0-9a-f]{0,6}")),
     };
     prop_oneof![
         10 => hexish,
@@ -293,4 +293,10 @@ pub fn hex_class(s: &str, offsets: &[usize]) -> String {
         prev = o + 1;
     }
     format!("decoded_len_ge_{prev}")
+}
+
+/// A regex string strategy compiled once (a bare `&str` strategy re-parses its regex for every
+/// generated case, which costs milliseconds for Unicode classes).
+pub fn re(pattern: &str) -> BoxedStrategy<String> {
+    proptest::string::string_regex(pattern).expect("regex").boxed()
 }
